@@ -82,7 +82,7 @@ def register(R, tier="quick"):
             f = dict(f)
             if f.get("corpus") is None:
                 # deterministic large-corpus family: the replay is that family itself
-                f["snippet"] = ("import sys\nsys.path.insert(0, %r)\nimport queries_bounded as q\nfails = []\nq.check_big(fails)\nq.check_parsed_dates(fails)\n"
+                f["snippet"] = ("import sys\nsys.path.insert(0, %r)\nimport queries_bounded as q\nfails = []\nq.check_big(fails)\nq.check_parsed_dates(fails)\nq.check_int_domain(fails)\n"
                                 "[print('FAIL', x['case'], '|', x['detail']) for x in fails]\nsys.exit(1 if fails else 0)\n"
                                 % os.path.join(ROOT, "bounded"))
             else:
